@@ -5,7 +5,7 @@
 (* Deviation kinds: value / value_v (::value or _v differs), type / type_t (::type or _t is another type),  *)
 (* has-type (member `type` present/absent), ill-formed (the evaluation does not compile), limbs, nan,        *)
 (* return-type; harness-* = the generator asked something outside the spec's domain (model failure).         *)
-EXTENDS LimitsOps, RatioOps, Json, IOUtils, TLC
+EXTENDS LimitsOps, RatioOps, RatioWide, Json, IOUtils, TLC
 
 Tr == ndJsonDeserialize(IOEnv.TRACE)
 
@@ -28,9 +28,20 @@ JType(ev, r) ==
 RatioNames == RatioOpsNames \cup RatioCmpNames \cup {"ratio"}
 NLNames == NLIntMembers \cup NLLimbMembers \cup NLFloatLimbMembers \cup {"nl:quiet_NaN", "nl:signaling_NaN"}
 
+JudgeBig(ev) ==      \* near-overflow ratios: events carry the descriptors a (and b)
+    LET tr == ev.trait IN
+    IF ~BigPre(ev.a) \/ (Has(ev, "b") /\ ~BigPre(ev.b)) THEN "harness-pre"
+    ELSE IF Ill(ev) THEN "ill-formed"
+    ELSE IF tr = "ratio" THEN
+        LET x == BigNorm(ev.a) IN
+        IF ev.neg # x.neg \/ ev.num # x.num \/ ev.den # x.den THEN "value" ELSE "ok"
+    ELSE IF tr \in RatioCmpNames THEN JVal(ev, BigCmp(tr, ev.a, ev.b))
+    ELSE "harness-trait"
+
 JudgeRatio(ev) ==
     LET tr == ev.trait IN
-    IF tr = "ratio" THEN
+    IF Has(ev, "a") THEN JudgeBig(ev)
+    ELSE IF tr = "ratio" THEN
         (IF ~RNormPre(ev.n, ev.d) THEN "harness-pre"
          ELSE IF Ill(ev) THEN "ill-formed"
          ELSE LET x == RNorm(ev.n, ev.d) IN
@@ -92,6 +103,8 @@ Judge(ev) ==
 Expected(ev) ==
     LET tr == ev.trait IN
     IF tr \in LogicNames THEN ToJson(LogicVal(tr, ev.bs))
+    ELSE IF tr \in RatioNames /\ Has(ev, "a") THEN
+        (IF tr = "ratio" THEN ToJson(BigNorm(ev.a)) ELSE ToJson(BigCmp(tr, ev.a, ev.b)))
     ELSE IF tr \in RatioNames THEN
         (IF tr = "ratio" THEN ToJson(RNorm(ev.n, ev.d))
          ELSE IF tr \in RatioOpsNames THEN ToJson(ROp(tr, ev.n1, ev.d1, ev.n2, ev.d2))
